@@ -356,8 +356,8 @@ Proof.
   rewrite IH. simpl. destruct f; simpl; f_equal; lia.
 Qed.
 
-(* the counter (bookkeeping, true by construction): HEAD leaves n ended threads after n connect/disconnect cycles and
-   rfbShutdownServer does not reclaim them; with the self-detach none is left *)
+(* the counter (bookkeeping, true by construction): the protocol before 600ddcc leaves n ended threads after n connect/disconnect cycles and
+   rfbShutdownServer does not reclaim them; HEAD (self-detach) leaves none *)
 Theorem threads_never_joined : forall n, th_zombie (th_run false (th_cycles n)) = n /\ th_live (th_run false (th_cycles n)) = 0.
 Proof. intros n. unfold th_run. rewrite th_cycles_run. simpl. split; lia. Qed.
 Theorem shutdown_does_not_reclaim_them : forall n, th_zombie (th_run false (th_cycles n ++ [ThShutdown])) = n.
@@ -369,14 +369,14 @@ Proof. intros n. unfold th_run. rewrite fold_left_app, th_cycles_run. simpl. ref
 Lemma rc_bound : forall f e t s, 2 <= t -> rc_step f e t s = None.
 Proof. intros f e t s H. unfold rc_step. do 2 (destruct t as [|t]; [lia|]). reflexivity. Qed.
 
-(* HEAD: the connection ends by itself before rfbShutdownServer looks: the thread has exited, nobody ever joins or detaches it *)
+(* before 600ddcc: the connection ends by itself before rfbShutdownServer looks: the thread has exited, nobody ever joins or detaches it *)
 Definition rc_leak_witness : list nat := [1;1;1;1;1; 0].
 Theorem client_thread_never_reclaimed :
   let s := run rc_st (rc_step false false) rc_leak_witness rc_init in
   rc_final s = true /\ rc_exited s = true /\ rc_reclaimed s = 0.
 Proof. vm_compute. repeat split. Qed.
 
-(* notes/fix_C13_6.diff: for EVERY schedule (the connection ends at any moment relative to the shutdown) the thread is never
+(* HEAD (600ddcc = notes/fix_C13_6.diff): for EVERY schedule (the connection ends at any moment relative to the shutdown) the thread is never
    joined after it detached itself, the application never touches the freed record, the thread is reclaimed at most once - and
    exactly once when both are through -, nobody gets stuck, and the round-robin continuation gets both through *)
 Definition rc_reach : list rc_st := explore rc_st rc_st_beq (rc_step true false) 2 5000 [rc_init] [].
@@ -425,13 +425,13 @@ Proof. vm_compute. reflexivity. Qed.
 (* ------------------------------------------------------------------ 4g. rfbShutdownServer against the listener *)
 Lemma ls_bound : forall f t s, 2 <= t -> ls_step f t s = None.
 Proof. intros f t s H. unfold ls_step. do 2 (destruct t as [|t]; [lia|]). reflexivity. Qed.
-(* HEAD: the listener has linked a new client, rfbShutdownServer's loop joins its (not yet existing) thread, the listener then
+(* before 633e5d0: the listener has linked a new client, rfbShutdownServer's loop joins its (not yet existing) thread, the listener then
    creates the thread after the loop is over *)
 Definition ls_witness : list nat := [1; 0; 1].
 Theorem shutdown_joins_unstarted_thread :
   let s := run ls_st (ls_step false) ls_witness ls_init in ls_badjoin s = true /\ ls_late s = true.
 Proof. vm_compute. split; reflexivity. Qed.
-(* notes/fix_C13_7.diff (listener stopped and joined first): for every schedule - the connection arrives at any moment - every
+(* HEAD (633e5d0 = notes/fix_C13_7.diff, listener stopped and joined first): for every schedule - the connection arrives at any moment - every
    client the loop finds has its thread, no client thread is created after the loop, nobody stuck, everybody finishes *)
 Definition ls_reach : list ls_st := explore ls_st ls_st_beq (ls_step true) 2 5000 [ls_init] [].
 Definition ls_finishing : list nat := concat (repeat [0; 1] 8).
@@ -468,7 +468,7 @@ Proof. vm_compute. repeat split. Qed.
 (* ------------------------------------------------------------------ 4h. rfbCloseClient against the handshake *)
 Lemma hs_bound : forall f t s, 2 <= t -> hs_step f t s = None.
 Proof. intros f t s H. unfold hs_step. do 2 (destruct t as [|t]; [lia|]). reflexivity. Qed.
-(* HEAD: the client's thread has read the ClientInit message, rfbCloseClient sets RFB_SHUTDOWN, the handshake stores RFB_NORMAL over
+(* before 4891477: the client's thread has read the ClientInit message, rfbCloseClient sets RFB_SHUTDOWN, the handshake stores RFB_NORMAL over
    it; the thread waits for the next message of an idle client, rfbShutdownServer waits in pthread_join: nobody can move *)
 Definition hs_witness : list nat := [1;1; 1;1; 1; 0;0;0; 1].
 Theorem close_during_handshake_lost :
@@ -478,7 +478,7 @@ Proof.
   repeat split; try (vm_compute; reflexivity).
   intros t. do 2 (destruct t as [|t]; [vm_compute; reflexivity|]). reflexivity.
 Qed.
-(* notes/fix_C13_8.diff: whenever the close falls relative to the handshake, nobody gets stuck and the shutdown completes *)
+(* HEAD (4891477 = notes/fix_C13_8.diff): whenever the close falls relative to the handshake, nobody gets stuck and the shutdown completes *)
 Definition hs_reach : list hs_st := explore hs_st hs_st_beq (hs_step true) 2 5000 [hs_init] [].
 Definition hs_finishing : list nat := concat (repeat [0; 1] 24).
 Lemma hs_closed : closed hs_st hs_st_beq (hs_step true) 2 hs_reach = true.
